@@ -11,7 +11,16 @@
      their mkdir / open(O_CREAT|O_APPEND) / append steps, from any tree with a well-shaped index area: no step fails,
      every operation returns Ok, and the final buckets and lookups are those of running the operations serially in the
      order of their append steps (a permutation of the operations).  No successful write is lost or spliced.
-   Serialisability of whole operations, bounded (the bound is part of each statement): for the nine concrete pairs below — drawn from the
+   * C07_conc_writes_serializable — UNBOUNDED serialisability of concurrent keyed writers: any number of one-shot
+     writers (same key, different keys, identical or different content, any algorithms), any interleaving of all their
+     steps (mkdir tmp, O_EXCL temp file, data write, mkdir content, rename, mkdir index, open, append), from any tree in
+     the cache invariant: no step fails; every writer returns the digest address of its data; every written content is
+     completely stored under its address; the invariant is kept; and the index is exactly the one of the serial run of the
+     writers in the order of their append steps.  Proof: per-thread stage predicate (the program term each thread can
+     be at, with what it needs of the tree), a stability ("rely") relation — directories stay, bucket files stay files,
+     published content stays, nobody touches another thread's temp file (fresh O_EXCL names are pairwise distinct) — and
+     the ghost order of appends.  Hypothesis: the writers' data do not collide under their content paths.
+   Serialisability of whole operations mixing readers / removers / listers, bounded (the bound is part of each statement): for the nine concrete pairs below — drawn from the
    property's operation set on cold and warm caches, with a toy hash, concrete keys and contents (two writers of one key /
    of one content are taken after their private temp-file phase, i.e. as two commits) — EVERY interleaving of
    the two operations' steps ends with results and a tree equal to those of one of the two serial orders
@@ -19,7 +28,7 @@
    [explore_complete]).  Partial: unbounded serialisability (all data / keys / cache states, three operations) is not
    proved — the writers' private temp-file phase needs a rely/guarantee argument that is left open; triples and the
    real kernel's atomicity are exercised by the forced-schedule suite on the real binaries. *)
-From CC Require Import Bytes Codec Utf8 Lines Json Sri Record Fs Prog Api Sess Crash Conc BytesP CodecP FsP ProgP SriP RecordP IndexP ReadP WriteP CommitP RemoveP CrashP CrashIdxP FormatP ConcP ConcIdxP.
+From CC Require Import Bytes Codec Utf8 Lines Json Sri Record Fs Prog Api Sess Crash Conc BytesP CodecP FsP ProgP SriP RecordP IndexP ReadP WriteP CommitP RemoveP CrashP CrashIdxP FormatP ConcP ConcIdxP ConcWriteP.
 From Coq Require Import Permutation.
 Local Open Scope N_scope.
 
@@ -56,7 +65,22 @@ Theorem C07_conc_index_serializable hs f0 pl' f' rs :
     (forall k, abs_idx hash f' k = fold_left spec_step perm (abs_idx hash f0) k).
 Proof. exact (conc_index_serializable hash hs f0 pl' f' rs). Qed.
 
-(* the thread programs of that theorem are the library's index programs *)
+Theorem C07_conc_writes_serializable (HL : HashLen hash) ws f0 pl' f' rs :
+  CacheInv f0 -> coll_free hash ws -> Forall (fun x => wf_rec hash (hop_rec (x_hop hash x))) ws ->
+  preach (map (wprog hash) ws, f0) (pl', f') -> results pl' = Some rs ->
+  rs = map (fun x => Ok (x_sri hash x)) ws /\
+  (forall x, In x ws -> lookup f' (InCache (x_cp hash x)) = Some (File (ws_data x))) /\
+  CacheInv f' /\
+  exists perm, Permutation perm ws /\
+    (forall b, bshape b -> bucket_at f' b = bucket_at (fold_left (exec_hop hash) (map (x_hop hash) perm) f0) b) /\
+    (forall k, abs_idx hash f' k = fold_left spec_step (map (x_hop hash) perm) (abs_idx hash f0) k).
+Proof. exact (conc_writes_serializable hash HL ws f0 pl' f' rs). Qed.
+
+(* the thread programs of that theorem are the library's write_sync programs (async write runs identically: C12) *)
+Theorem C07_wprog_is_write x : wprog hash x = write hash Sync (ws_a x) (ws_key x) (ws_data x) (ws_now x).
+Proof. reflexivity. Qed.
+
+(* the thread programs of the index theorem are the library's index programs *)
 Theorem C07_hop_prog_is_insert key o now :
   insert hash key o now = seq_prog (hop_steps hash (HIns key o now)) (match o_sri o with Some i => i | None => deadbeef end) /\
   hop_prog hash (HIns key o now) = seq_prog (hop_steps hash (HIns key o now)) tt.
@@ -169,6 +193,7 @@ Print Assumptions C07_interleave_invariant.
 Print Assumptions C07_conc_content_inv.
 Print Assumptions C07_appends_never_splice.
 Print Assumptions C07_conc_index_serializable.
+Print Assumptions C07_conc_writes_serializable.
 Print Assumptions C07_hop_prog_is_insert.
 Print Assumptions C07_pairs_serializable.
 Print Assumptions C07_pairs_all_interleavings.
